@@ -105,6 +105,12 @@ def execute(acc, case):
                     for _, o in mine:
                         sc.node.send_message(o)
                 done.append(1)
+            if case.get("park_worker") is not None:
+                # park sweep of the library's own threads: the transport thread (or the state-machine thread) stands at its k-th
+                # source line while the submitters and the other thread go on (hand-over of the next stream, partial writes)
+                who, k = case["park_worker"]
+                who = who if who != "psm" else ("client_psm_thread" if case["role"] == "client" else "server_psm_thread")
+                sc.sched.parks.append({"task": who, "nth": k, "timeout": 0.02, "release": lambda: len(done) >= len(plans)})
             if case.get("park") is not None:
                 # park sweep (DESIGN 2.5b): submitter0 is descheduled at its n-th source line inside the library until the other
                 # submitters have returned and the send queue is empty (or half a virtual second has passed)
@@ -126,7 +132,12 @@ def execute(acc, case):
             sc.sched.run_until(lambda: len(done) == len(plans), 8.0, "submitters")
             quiet = sc.quiesce(timeout=8.0)
             acc.counters["executions"] += 1
-            if sc.sched.parked_at:
+            if sc.sched.parked_at and case.get("park_worker"):
+                acc.counters["library_thread_parked_while_messages_are_submitted"] += 1
+                acc.extra.setdefault("parked_at", {})
+                kk = "%s@%s" % sc.sched.parked_at[0]
+                acc.extra["parked_at"][kk] = acc.extra["parked_at"].get(kk, 0) + 1
+            elif sc.sched.parked_at:
                 acc.counters["submitter_parked_while_others_write"] += 1
                 acc.extra.setdefault("parked_at", {})
                 acc.extra["parked_at"][sc.sched.parked_at[0][1]] = acc.extra["parked_at"].get(sc.sched.parked_at[0][1], 0) + 1
@@ -243,6 +254,11 @@ def plan(tier, seed):
         for w in (["fixed50"] if q else ["full", "fixed7", "zero-window"]):
             cases.append({"seed": seed * 53 + nth, "submitters": 2, "per": 2, "write": w, "inbound": 0, "strategy": "rw", "p": 0.02,
                           "role": ("client", "server")[nth % 2], "batch": nth % 4 == 3, "park": nth})
+    for who, span in (("transport_layer_thread", 60), ("psm", 70)):
+        for k in range(0, span, 2 if q else 1):
+            for w in (["fixed50"] if q else ["full", "fixed7", "zero-window"]):
+                cases.append({"seed": seed * 59 + k, "submitters": 2, "per": 3, "write": w, "inbound": 2 if k % 3 == 0 else 0, "strategy": "rw", "p": 0.02,
+                              "role": ("client", "server")[k % 2], "batch": k % 4 == 1, "park_worker": [who, k]})
     for i in range(6 if q else 60):
         # aggregate above the 256 KiB batching limit, handed over in one send_messages() call
         cases.append({"seed": seed * 733 + i, "submitters": rng.choice([1, 2]), "per": 8, "big": True, "batch": True,
@@ -264,7 +280,7 @@ def main(tier, seed):
                           ["node-originated CER/CEA/DWR/DWA/DPR/DPA are legal in the outbound stream when they appear whole at message boundaries",
                            "vnet models Linux TCP send(): accepts a prefix or raises BlockingIOError",
                            "quiescence = all queues and buffers empty and two state-machine ticks without change"],
-                          t0, require_counters=("executions", "steps", "partial_sends", "batch_limit_reached", "inbound_injected_on_partial_write", "real_loopback_ok", "submitter_parked_while_others_write"))
+                          t0, require_counters=("executions", "steps", "partial_sends", "batch_limit_reached", "inbound_injected_on_partial_write", "real_loopback_ok", "submitter_parked_while_others_write", "library_thread_parked_while_messages_are_submitted"))
 
 
 def replay(w):
